@@ -4,6 +4,8 @@ import (
 	"bytes"
 	"go/types"
 
+	gengotypes "github.com/octohelm/gengo/pkg/types"
+
 	"github.com/octohelm/gengo/internal/verifsym"
 )
 
@@ -169,5 +171,41 @@ func Verif_C06_Merge() {
 		n++
 	}
 	verifsym.Assert(n <= 2, "merge invented a key")
+	verifsym.Reach("end")
+}
+
+// ---------------------------------------------------------------- C15: PkgImportPathAndExpose vs ParseRef
+
+// Verif_C15_Expose: for every reference string of n arbitrary bytes (brackets
+// allowed), PkgImportPathAndExpose and types.ParseRef agree on where the
+// package path ends: the path is everything before the last '.' that precedes
+// the first '[', and the names agree up to the first '['. (n < 8, so the
+// "/vendor/" trimming cannot apply.)
+func Verif_C15_Expose(n int) {
+	s := verifsym.String(n)
+	if n > 0 {
+		verifsym.Assume(s[0] != '[') // a reference starts with a path or an identifier (well-formedness)
+	}
+	path, expose := PkgImportPathAndExpose(s)
+	r, err := gengotypes.ParseRef(s)
+	if err != nil {
+		verifsym.Assert(path == "", "PkgImportPathAndExpose finds a package path where ParseRef finds none")
+	} else {
+		verifsym.Assert(path == r.Pkg().Path(), "PkgImportPathAndExpose and ParseRef disagree on the package path")
+		name := r.Name()
+		cut := len(name)
+		for i := 0; i < len(name); i++ {
+			if name[i] == '[' {
+				cut = i
+				break
+			}
+		}
+		// ParseRef keeps the argument list in the name; the expose name is the part before it
+		if cut > 0 || len(name) == 0 {
+			verifsym.Assert(expose == name[:cut], "PkgImportPathAndExpose and ParseRef disagree on the name")
+		}
+	}
+	verifsym.Observe("path", path)
+	verifsym.Observe("expose", expose)
 	verifsym.Reach("end")
 }
